@@ -1,11 +1,12 @@
 \* exhaustive: assemblies of 3 blocks, k in -13..13
-CONSTANTS K = 13  H = 5  NB = 3  Layouts = {"p1", "p7", "p19", "singles", "mixed", "nogrid"} TieDi = FALSE  MaxLevel = 3
+CONSTANTS K = 13  H = 5  NB = 3  Layouts = {"p1", "p7", "p19", "singles", "mixed", "nogrid", "prism", "families"}  TieDi = TRUE  MaxLevel = 3
 INIT Init
 NEXT NextB
 CONSTRAINT Bound
 INVARIANT TypeOK
 INVARIANT ShapeKept
 INVARIANT CellsFollowGeometry
+INVARIANT FamiliesStayDisjoint
 INVARIANT FreePointsFollowGeometry
 INVARIANT BoundaryDataFollowGeometry
 INVARIANT OtherValuesUntouched
